@@ -35,8 +35,18 @@ type NamedTerm struct {
 }
 
 // run is one verification run of a top-level function or lemma.
+// sliceBound: the typing assumption on slice and string lengths for this run (the function's own lenbound
+// clause, else the property-wide bound).
+func (r *run) sliceBound() int64 {
+	if r.lenBoundLog2 > 0 {
+		return 1 << uint(r.lenBoundLog2)
+	}
+	return r.E.sliceBound()
+}
+
 type run struct {
 	E        *Engine
+	lenBoundLog2 int
 	mode     string
 	facts    []*smt.Term
 	obls     []*Obligation
@@ -444,7 +454,7 @@ func (r *run) freshValue(prefix string, t types.Type) (Value, []*smt.Term) {
 func (r *run) sliceFacts(sv SliceV) []*smt.Term {
 	c := r.C()
 	zero := r.idxConst(0)
-	big := r.idxConst(r.E.sliceBound())
+	big := r.idxConst(r.sliceBound())
 	ref := sv.Base.Idxs[0]
 	return []*smt.Term{
 		c.Op(">=", nil, ref, c.IntC(0)),
@@ -1865,7 +1875,10 @@ func (r *run) stringSlice(cur *node, fr *frame, x *ssa.Slice, s Scalar, lo, hi *
 		hi = ln
 	}
 	r.abnormal(cur, fr, "slice", x, c.Not(c.And(r.sle(r.idxConst(0), lo), r.sle(lo, hi), r.sle(hi, ln))))
-	return Scalar{r.uf("str.sub", StrSort, s.T, lo, hi)}
+	sub := r.uf("str.sub", StrSort, s.T, lo, hi)
+	// len(s[lo:hi]) == hi - lo (on the paths where the slice expression does not panic)
+	r.assume(cur.alive, c.Implies(c.And(r.sle(r.idxConst(0), lo), r.sle(lo, hi), r.sle(hi, ln)), c.Eq(r.uf("strlen$", r.idx(), sub), r.isub(hi, lo))))
+	return Scalar{sub}
 }
 
 func (r *run) makeInterface(v Value, t types.Type) Value {
